@@ -235,7 +235,7 @@ def run(ctx: Ctx) -> Result:
         for i in range(si, len(cs), nshards):
             vm, ks = cs[i]
             res.states += 1
-            check_case(res, ctx, db, pkgdir, vm, ks, do_apply=(i % 4 == 0 or ctx.tier == "thorough"))
+            check_case(res, ctx, db, pkgdir, vm, ks, do_apply=(i % 4 == 0 if ctx.tier == "quick" else (i % 6 == 0 or len(ks) <= 1)))
             if i % 211 == 0:
                 res.sample({"valid_rows": [VALID[j][1] for j in range(4) if vm & (1 << j)], "stale_kinds": list(ks)})
         return res
